@@ -47,11 +47,20 @@ def __getitem__(self, indx):
     else:
         result_shape = result_vals_shape
 
+    # Align the post-mask, which has the shape of the array indices, with the
+    # axes of the result where NumPy has placed them
+    if np.shape(post_mask):
+        lead = 0 if moved_to_front else first_array_loc
+        trail = len(result_shape) - lead - len(array_shape)
+        post_mask = np.broadcast_to(post_mask, array_shape)
+        post_mask = post_mask.reshape(lead * (1,) + array_shape + trail * (1,))
+        post_mask = np.broadcast_to(post_mask, result_shape)
+
     if not np.any(post_mask):                   # post-mask is False
         if np.shape(self._mask_):               # self-mask is array
             result_mask = self._mask_[pre_index]
         else:                                   # self-mask is True or False
-            result_mask = post_mask or self._mask_
+            result_mask = self._mask_
     elif np.all(post_mask):                     # post-mask is True
         result_mask = True
     else:                                       # post-mask is array
@@ -61,14 +70,7 @@ def __getitem__(self, indx):
         elif self._mask_:                       # self-mask is True
             result_mask = True
         else:                                   # self-mask is False
-            if post_mask.shape == result_shape:
-                result_mask = post_mask.copy()
-            else:
-                result_mask = np.zeros(result_shape, dtype=np.bool_)
-                axes = len(result_shape) - post_mask.ndim
-                new_shape = post_mask.shape + axes * (1,)
-                mask = post_mask.reshape(new_shape)
-                result_mask[...] = mask
+            result_mask = post_mask.copy()
 
     # Relocate the axes indexed by arrays if necessary
     if moved_to_front:
@@ -504,20 +506,43 @@ def _prep_index(self, indx):
 
     # According to NumPy indexing rules, if there are non-consecutive array
     # array indices, the array indices are moved to the front of the axis
-    # order in the result!
+    # order in the result! Any slice, None or Ellipsis between two of them
+    # separates them. NumPy counts integers as array indices here; when it is
+    # only an integer that is separated from the arrays, the array axes stay
+    # at the front, as in NumPy.
+    #
+    # first_array_loc is the location of the first array index among the axes
+    # of the result: integers before it contribute no axis, each slice, None
+    # or single boolean contributes one, an Ellipsis as many as it stands for.
+    first_array_loc = 0
+    moved_to_front = False
     if array_inlocs:
-        first_array_loc = array_inlocs[0]
-        diffs = np.diff(array_inlocs)
-        moved_to_front = np.any(diffs > 1) and first_array_loc > 0
-    else:
-        first_array_loc = 0
-        moved_to_front = False
+        is_array = [isinstance(item, np.ndarray) for item in pre_index]
+        first_k = is_array.index(True)
+        for item in pre_index[:first_k]:
+            if isinstance(item, type(Ellipsis)):
+                first_array_loc += correction
+            elif not isinstance(item, numbers.Integral):
+                first_array_loc += 1
+
+        def separated(types):
+            locs = [k for (k,item) in enumerate(pre_index)
+                    if isinstance(item, types)]
+            return any(not isinstance(item, (np.ndarray, numbers.Integral))
+                       for item in pre_index[locs[0]:locs[-1]])
+
+        if separated(np.ndarray):
+            moved_to_front = first_array_loc > 0
+        elif separated((np.ndarray, numbers.Integral)):
+            first_array_loc = 0
 
     # Simplify the post_mask if possible
     if not all(array_shape):        # mask doesn't matter if size is zero
         post_mask = False
     elif np.all(post_mask):
         post_mask = True
+    elif not np.any(post_mask):
+        post_mask = False
 
     return (tuple(pre_index), post_mask, has_ellipsis,
             moved_to_front, array_shape, first_array_loc)
